@@ -687,6 +687,9 @@ void clearComponentImports(const ComponentPtr &component)
 void Importer::clearImports(ModelPtr &model)
 {
     // Clear the models from all import sources in the model.
+    if (model == nullptr) {
+        return;
+    }
     for (size_t u = 0; u < model->unitsCount(); ++u) {
         auto mu = model->units(u);
         if (mu->isImport()) {
